@@ -132,6 +132,13 @@ func RandomPacket(r *rand.Rand, typ byte, ver byte) *Packet {
 		p.Retain = r.IntN(2) == 0
 		p.Topic = rtopic(r)
 		p.Payload = rbytes(r, []int{0, 5, 200, 3000}[r.IntN(4)])
+		if r.IntN(250) == 0 {
+			// beyond 64 KiB: decoders that read large bodies incrementally take another path
+			p.Payload = make([]byte, 65537+r.IntN(140000))
+			for i := range p.Payload {
+				p.Payload[i] = 'a' + byte(i%26) // valid UTF-8 whatever the payload format indicator says
+			}
+		}
 		if p.QoS > 0 {
 			p.PID = pid()
 			p.Dup = r.IntN(4) == 0
